@@ -47,7 +47,7 @@ func verifC02applyH(side blas.Side, m, n int, c []float64, ldc int, v []float64,
 func VerifC02_Dlarf() { verifC02dlarf(verifChoose("incv", 1, 2)) }
 
 // VerifC02_DlarfNegIncv: the same for incv in {-1,-2} (admitted by the argument
-// checks; BLAS convention: element i at (n-1-i)*|incv|). OPEN VIOLATION F6, see notes/C02.md.
+// checks; BLAS convention: element i at (n-1-i)*|incv|). This harness found finding F6 (fixed in /repo 0f4d828), see notes/C02.md.
 func VerifC02_DlarfNegIncv() { verifC02dlarf(-verifChoose("negincv", 1, 2)) }
 
 func verifC02dlarf(incv int) {
@@ -149,15 +149,16 @@ func VerifC02_DlarftDlarfb() {
 	pad := verifChoose("pad", 0, 1)
 	var ldv int
 	var v []float64
-	// V is given one extra row of storage: with a V of exactly the minimal
-	// admissible length Dlarft(Forward, ColumnWise) faults when k == nv, see
-	// VerifC02_DlarftExactV (finding F7).
+	// vslack extra rows of storage behind V (default 0: exactly the minimal
+	// admissible length; before the fix of finding F7 Dlarft(Forward, ColumnWise)
+	// faulted on that when k == nv, see VerifC02_DlarftExactV).
+	vslack := verifParam("vslack", 0)
 	if store == lapack.ColumnWise {
 		ldv = k + pad
-		v = verifC02mat("v", nv+1, k, ldv)
+		v = verifC02mat("v", nv+vslack, k, ldv)
 	} else {
 		ldv = nv + pad
-		v = verifC02mat("v", k+1, nv, ldv)
+		v = verifC02mat("v", k+vslack, nv, ldv)
 	}
 	tau := verifFloats("tau", k)
 	ldt := k + pad
@@ -283,7 +284,7 @@ func VerifC02_Dorm2r() {
 // VerifC02_DlarftExactV: Dlarft with V, tau, T of exactly the minimal admissible
 // lengths must not fault (index/slice out of range) and must give T such that
 // I - V*T*V^T (resp. I - V^T*T*V) equals the documented product of reflectors.
-// OPEN VIOLATION F7 (Forward/ColumnWise, k == n): see notes/C02.md.
+// This harness found finding F7 (Forward/ColumnWise, k == n; fixed in /repo f174302), see notes/C02.md.
 func VerifC02_DlarftExactV() {
 	n := verifChoose("n", 1, verifParam("larftn", 3))
 	k := verifChoose("k", 1, verifC02min(n, 2))
